@@ -38,6 +38,7 @@ func c08Representable(c C08Case) bool {
 
 // checkC08 returns whether the input was accepted.
 func checkC08(t TB, c C08Case) bool {
+	noteCase("C08", "codabar-2of5", c)
 	const P, K = "C08", "codabar-2of5"
 	s := string(c.Content)
 	rep := c08Representable(c)
@@ -89,6 +90,9 @@ func checkC08(t TB, c C08Case) bool {
 	}
 	if !rep {
 		failf(t, P, K, c, "unrepresentable text accepted (Content()=%q)", bc.Content())
+	}
+	if len(s) > 3 || c.Kind == "codabar" {
+		disturb(map[string]string{"codabar": "codabar", "2of5": "2of5", "itf": "itf"}[c.Kind])
 	}
 	m, merr := modules1D(bc)
 	if merr != nil {
@@ -212,6 +216,7 @@ func genC08(t *rapid.T) C08Case {
 }
 
 func TestC08Rapid(t *testing.T) {
+	foreignWarmup("codabar", "2of5", "itf")
 	st := NewStats("C08", "rapid")
 	runRapid(t, st, func(rt *rapid.T) {
 		c := genC08(rt)
